@@ -181,6 +181,11 @@ def handleP01 (toks : List String) : String :=
     match parseHex so, parseText t1 with
     | some so, some t1 => "M " ++ canonOutcome (assemble (so != 0) [] t1).1 ++ " ;; S reject"
     | _, _ => "bad-request"
+  | [so, t1, "=", "m"] =>
+    -- a directed raw text without an abstract program: implementation against the model only
+    match parseHex so, parseText t1 with
+    | some so, some t1 => "M " ++ canonOutcome (assemble (so != 0) [] t1).1
+    | _, _ => "bad-request"
   | so :: t1 :: t2 :: items =>
     match parseHex so, parseText t1, (if t2 == "=" then some none else (parseText t2).map some),
         items.mapM parseItem with
